@@ -1154,6 +1154,16 @@ pub fn run_c07(tier: Tier) -> i32 {
                     break;
                 }
             }
+            // the same move named twice, and around another one
+            for m in legal.iter().step_by(5).take(4) {
+                let other = legal.iter().find(|x| *x != m).cloned().unwrap_or_else(|| m.clone());
+                for (line, sm) in [(format!("go depth {} searchmoves {} {}", second_depth, m, m), vec![m.clone()]), (format!("go depth {} searchmoves {} {} {}", second_depth, m, other, m), vec![m.clone(), other.clone()])] {
+                    stats.gos.fetch_add(1, Ordering::Relaxed);
+                    let spec = GoSpec { line, needs_stop: false, searchmoves: sm };
+                    let out = run_go(&mut s, &spec.line, Plan::virtual_rate(1_000), &none);
+                    c07_judge(&rep, &root, tag, &pos_line, &spec, "1us/node", &out, 0, json!({"earlier_search_on_this_engine": first, "position_command_repeated": reposition, "ucinewgame_before": newgame, "repeated_searchmoves_token": true}));
+                }
+            }
             s.quit();
         }
     });
@@ -1173,6 +1183,14 @@ pub fn run_c07(tier: Tier) -> i32 {
         let mut specs: Vec<GoSpec> = (1..=3).map(|d| GoSpec { line: format!("go depth {}", d), needs_stop: false, searchmoves: vec![] }).collect();
         for m in &legal {
             specs.push(GoSpec { line: format!("go depth 2 searchmoves {}", m), needs_stop: false, searchmoves: vec![m.clone()] });
+        }
+        // the same move named more than once (a GUI may repeat a token; the set is what counts): twice,
+        // around another move, and more often than the position has moves
+        for m in legal.iter().take(3) {
+            let other = legal.iter().find(|x| *x != m).cloned().unwrap_or_else(|| m.clone());
+            specs.push(GoSpec { line: format!("go depth 2 searchmoves {} {}", m, m), needs_stop: false, searchmoves: vec![m.clone()] });
+            specs.push(GoSpec { line: format!("go depth 2 searchmoves {} {} {}", m, other, m), needs_stop: false, searchmoves: vec![m.clone(), other.clone()] });
+            specs.push(GoSpec { line: format!("go depth 1 searchmoves {}", vec![m.as_str(); 80].join(" ")), needs_stop: false, searchmoves: vec![m.clone()] });
         }
         for spec in &specs {
             stats.gos.fetch_add(1, Ordering::Relaxed);
